@@ -7,6 +7,7 @@ S3: spiftool_split and spif_tok_eval agree on the per-character step for every (
 (STEPEQ: finite abstract evaluation over character classes; default quote/escape characters of the tok class).
 S2: the word loops of get_word/get_pword/num_words carry only their cursors and counters from word to word (LOOPSTATE).
 The token lists themselves (the grammar) are not decided."""
+import re
 from .. import facts, expr as X, loopstate
 from ..facts import walk
 from ..report import Check
@@ -100,6 +101,66 @@ def run(tier="quick"):
                detail="%s reports success on a path on which it has not stored a new token list: the object keeps the tokens of the "
                       "source it was evaluated on before" % tf.name,
                proof="a store of a fresh list into self->tokens dominates every successful return")
+    # S6 a copy is tokenized with its own separators: in a dup function of the tokenizer, a method applied to the copy that reads a
+    # field of the object it is given runs after the copy has been given that field - evaluating the copy first and copying the
+    # separator set (or the quoting characters) afterwards tokenizes it with the defaults, so the copy's tokens differ from
+    # what the grammar defines for its own (source, separators)
+    chk.rule("S6", "a duplicate is only evaluated after it has been given the fields the evaluation reads")
+    n6 = 0
+    tu = prog.units.get("tok.c")
+    for f6 in (tu.functions.values() if tu is not None else ()):
+        if f6.body is None or f6.cfg is None or not re.search(r"_dup$", f6.name):
+            continue
+        cfg6 = _nl.prepared_cfg(f6, NORETURN)
+        copies = set()
+        for x in walk(f6.body):
+            if x.get("k") == "assign" and x.get("op") == "=":
+                l, r = X.strip(x["ch"][0]), X.strip(x["ch"][1])
+                if l is not None and l.get("k") == "ref" and l.get("rk") == "local" and r is not None and r.get("k") == "call" and re.search(r"_new$", X.callee_name(r) or ""):
+                    copies.add(l["d"])
+        stores6 = {}
+        for x in walk(f6.body):
+            if x.get("k") == "assign" and x.get("op") == "=":
+                l = X.strip(x["ch"][0])
+                if l is not None and l.get("k") == "member" and l.get("arrow") and (X.strip(l["ch"][0]) or {}).get("d") in copies:
+                    stores6.setdefault(l["n"], []).append(x)
+        for c in X.calls_in(f6.body):
+            g6 = tu.functions.get(X.callee_name(c) or "")
+            a0 = X.strip(c["ch"][1]) if c["ch"][1:] else None
+            if g6 is None or g6.body is None or not g6.params or a0 is None or a0.get("k") != "ref" or a0.get("d") not in copies or re.search(r"_(new|init)$", g6.name):
+                continue
+            reads6 = set()
+            for y in walk(g6.body):
+                if y.get("k") == "member" and y.get("arrow") and (X.strip(y["ch"][0]) or {}).get("d") == g6.params[0]["d"]:
+                    par = g6.parent.get(y["i"])
+                    if not (par is not None and par.get("k") == "assign" and par.get("op") == "=" and X.strip(par["ch"][0]) is y):
+                        reads6.add(y["n"])
+            def after6(a_id, b_id):
+                """is node b reachable from node a?"""
+                pa, pb = cfg6.pos.get(a_id), cfg6.pos.get(b_id)
+                if pa is None or pb is None:
+                    return False
+                if pa[0] == pb[0] and pa[1] < pb[1]:
+                    return True
+                seen_, work_ = set(), [pa[0]]
+                while work_:
+                    cur_ = work_.pop()
+                    for s_, _c, _t in cfg6.edges(cur_):
+                        if s_ == pb[0]:
+                            return True
+                        if s_ not in seen_:
+                            seen_.add(s_)
+                            work_.append(s_)
+                return False
+            late = sorted(fld for fld in reads6 if fld in stores6 and not any(cfg6.node_dominates(st_["i"], c["i"]) for st_ in stores6[fld])
+                          and any(after6(c["i"], st_["i"]) for st_ in stores6[fld]))
+            n6 += 1
+            chk.ob("S6", f6.name, "copy-complete-before:%s" % g6.name, not late, loc=f6.loc(c),
+                   detail="%s applies %s() to the copy before the copy has been given %s (stored only afterwards): the method works on the "
+                          "constructor's defaults instead of the original's settings, so the copy's result differs from the original's" % (
+                              f6.name, g6.name, ", ".join(late)),
+                   proof="every field %s reads is stored into the copy before the call (or not stored by the dup at all)" % g6.name)
+    chk.count("methods_applied_to_a_copy", n6)
     # S2: the word loops treat every word on its own: only the variables named by the loop header survive an iteration
     nitem = 0
     for nm in ("spiftool_get_word", "spiftool_get_pword", "spiftool_num_words"):
